@@ -336,7 +336,7 @@ def _finish(run, M, st, t0):
 
 
 # --------------------------------------------------------------------------- Jac
-def run_jac(project, tdir, rates="havoc", nsystem=1, with_physics=False, data_overrides=None):
+def run_jac(project, tdir, rates="havoc", nsystem=1, with_physics=False, data_overrides=None, second_call=False):
     """returns Run with .J: dict (r,c)->term of *explicitly stored* entries,
     .zeroed (bool: dense/odeint matrix zeroed before the first entry store),
     for sparse kinds .rowptrs/.colvals/.data lists (None where never written)."""
@@ -419,6 +419,19 @@ def run_jac(project, tdir, rates="havoc", nsystem=1, with_physics=False, data_ov
         fn = L.find(r"^Jac\(double, _generic_N_Vector\*")
         args = [z3.Real("t"), Ptr("u", 0), Ptr("fu", 0), Ptr("jm", 0), ud, Ptr("tmp1", 0), Ptr("tmp2", 0), Ptr("tmp3", 0)]
         _, ret = M.run_function(fn, st, args)
+        if second_call:
+            # CVODE clears the matrix before every evaluation; SUNMatZero of a sparse matrix zeroes the values, the
+            # column indices and the row pointers.  The second evaluation runs in the state the first one left
+            # (function-local statics, globals).
+            w = 8
+            rp, cv, dt = st.cells("rowptrs"), st.cells("colvals"), st.cells("data")
+            run.first = {"rowptrs": [rp.get(w * i) for i in range(NEQ + 1)], "colvals": [cv.get(w * i) for i in range(NNZ)], "data": [dt.get(8 * i) for i in range(NNZ)]}
+            for nm, n in (("rowptrs", NEQ + 1), ("colvals", NNZ)):
+                for i in range(n):
+                    st.store(nm, w * i, 0)
+            for i in range(NNZ):
+                st.store("data", 8 * i, Fraction(0))
+            _, ret = M.run_function(fn, st, args)
     elif kind == "cusparse":
         H.make_array(st, "y.data", NEQ * nsystem, y)
         H.make_array(st, "data", NNZ * nsystem)
